@@ -31,7 +31,8 @@ class Profile:
     """What the scalar alphabet may contain."""
 
     def __init__(self, name="hostile", strings="hostile", bool_with_01=True, numeric_strings=True,
-                 floats=True, none=True, bools=True, alpha="abc", maxd=3, width=5, big_ints=True, empty_strings=True):
+                 floats=True, none=True, bools=True, alpha="abc", maxd=3, width=5, big_ints=True, empty_strings=True,
+                 integral_floats=True):
         self.name = name
         self.strings = strings
         self.bool_with_01 = bool_with_01
@@ -44,6 +45,7 @@ class Profile:
         self.width = width
         self.big_ints = big_ints
         self.empty_strings = empty_strings
+        self.integral_floats = integral_floats
 
 
 HOSTILE = Profile()
@@ -82,6 +84,9 @@ def gscalar(r, prof):
     if y < 0.70:
         return gint(r, prof)
     if y < 0.80 and prof.floats:
+        if prof.integral_floats and r.random() < 0.35:
+            # numerically equal int/float twins (1 vs 1.0): python-equal nodes whose string forms differ
+            return r.choice([0.0, 1.0, 2.0, 3.0, 10.0, -1.0, 7.0, 100.0])
         return r.choice([1.5, 2.25, -0.5, 1e308, 5e-324, 3.14159, 1e-7, 12.5])
     if y < 0.92 and prof.bools:
         return r.choice([True, False])
